@@ -102,12 +102,11 @@ class MAUPITIConv2d(nn.Conv2d, MAUPITIModule):
                                                              int_bias)
         with torch.no_grad():
             if conv.bias is not None:
-                if not self.skip_requant:
-                    int_bias = int_bias * self.scale
-                    self.add_bias = int_bias.view(1, self.out_channels, 1, 1)
-                else:
+                if self.skip_requant:
                     self.bias = cast(torch.Tensor, self.bias)
                     self.bias.copy_(int_bias)
+                int_bias = int_bias * self.scale
+                self.add_bias = int_bias.view(1, self.out_channels, 1, 1)
             else:
                 self.add_bias = int_bias.view(1, self.out_channels, 1, 1)
 
@@ -122,9 +121,11 @@ class MAUPITIConv2d(nn.Conv2d, MAUPITIModule):
                                     torch.sum(self.weight, dim=(1, 2, 3)
                                               ).view(1, self.out_channels, 1, 1))
         else:
+            # Output layer, same form as MAUPITILinear: the input offset is
+            # compensated, no `2**shift` term since the output is not re-quantized
             with torch.no_grad():
-                self._zero_point = (self.bias -
-                                    self.clip_inf *
+                self._zero_point = (self.add_bias -
+                                    self.clip_inf * self.scale *
                                     torch.sum(self.weight, dim=(1, 2, 3)
                                               ).view(1, self.out_channels, 1, 1))
 
@@ -156,21 +157,17 @@ class MAUPITIConv2d(nn.Conv2d, MAUPITIModule):
         :return: the output activations tensor
         :rtype: torch.Tensor
         """
-        if not self.skip_requant:  # This should happen on the last layer
-            # Convolution
-            input = self.pad(input)
-            out = F.conv2d(input, self.weight, None, self.stride,
-                           'valid', self.dilation, self.groups)
-            # Multiply scale factor, sum bias, shift
-            out = (out * self.scale + self._zero_point) / (2 ** self.shift)
+        # Convolution
+        input = self.pad(input)
+        out = F.conv2d(input, self.weight, None, self.stride,
+                       'valid', self.dilation, self.groups)
+        # Multiply scale factor, sum bias, shift
+        out = (out * self.scale + self._zero_point) / (2 ** self.shift)
+        if not self.skip_requant:  # The output layer returns the real-valued logits
             # Compute floor
             out = torch.floor(out)
             # Compute relu
             out = torch.clip(out, self.clip_inf, self.clip_sup)
-        else:
-            # Convolution
-            out = F.conv2d(input, self.weight, self.bias, self.stride,
-                           self.padding, self.dilation, self.groups)
 
         return out
 
@@ -193,13 +190,17 @@ class MAUPITIConv2d(nn.Conv2d, MAUPITIModule):
 
     @property
     def clip_inf(self):
-        # Define ReLU inferior extreme
+        # Define ReLU inferior extreme (on the output layer: the input offset)
+        if self.skip_requant:
+            return torch.tensor(-2 ** (self.in_quantizer.precision - 1), device=self.device)
         return torch.tensor(-2 ** (self.out_quantizer.precision - 1),
                             device=self.device)
 
     @property
     def clip_sup(self):
         # Define ReLU superior extreme
+        if self.skip_requant:
+            return torch.tensor(2 ** (self.in_quantizer.precision - 1) - 1, device=self.device)
         return torch.tensor(2 ** (self.out_quantizer.precision - 1) - 1,
                             device=self.device)
 
